@@ -22,7 +22,18 @@ def check_stats(xs):
     k = rnd.randrange(0, len(xs) + 1)
     for x in xs[:k]:
         rs.update(x)
-    rs.update_from_it(xs[k:])
+    rest = xs[k:]
+    form = rnd.choice(["list", "array", "generator", "two arrays"])      # any iterable of numbers, in one chunk or several
+    if form == "array":
+        rs.update_from_it(np.asarray(rest, dtype=float))
+    elif form == "generator":
+        rs.update_from_it(x for x in rest)
+    elif form == "two arrays":
+        j = len(rest) // 2
+        rs.update_from_it(np.asarray(rest[:j], dtype=float))
+        rs.update_from_it(np.asarray(rest[j:], dtype=float))
+    else:
+        rs.update_from_it(rest)
     a = np.asarray(xs, dtype=float)
     spread = float(np.abs(a - a.mean()).max()) or 1.0
     BIG[0] = float(np.abs(a).max()) or 1.0
